@@ -302,7 +302,23 @@ def check(ctx):
     # ---- C17.2 -------------------------------------------------------------------------------------
     init = P.method(c, '__init__')[1]
     o2.count()
-    if not any(isinstance(x, ast.Assert) and 'output_batch_size > 0' in ast.unparse(x.test) for x in ast.walk(init)):
+    def _positive_size(test):
+        # some operand of the asserted formula says  size > 0  (any spelling: 0 < size, size >= 1, not size <= 0)
+        from ..norm import cmp_norm as _cn
+        Nb = Normalizer(P, c)
+        for x in ast.walk(test):
+            if isinstance(x, ast.Compare) and len(x.ops) == 1:
+                for truth in (True, False):
+                    r = _cn(Nb, x, {}, truth)
+                    if r is None:
+                        continue
+                    lin, op = r
+                    # size > 0  <=>  -size < 0 ;  size >= 1  <=>  1 - size <= 0
+                    if (op == '<' and lin.is_({'output_batch_size': -1})) or (op == '<=' and lin.is_({'output_batch_size': -1}, 1)):
+                        negated_somewhere = truth is False
+                        return not negated_somewhere or any(isinstance(u, ast.UnaryOp) and isinstance(u.op, ast.Not) for u in ast.walk(test))
+        return False
+    if not any(isinstance(x, ast.Assert) and _positive_size(x.test) for x in ast.walk(init)):
         o2.fail(P, 'PartBatcher.__init__', 'assert output_batch_size == None or output_batch_size > 0', 'a non-positive batch size is not rejected', file=c.mod.path, line=init.lineno)
     for s in inv.attr_stores(P, '_output_batch_size'):
         o2.count()
